@@ -46,8 +46,21 @@ Alphabet == CASE Which = "full" -> FullAlpha [] Which = "num" -> NumAlpha
 Prefixes == CASE Which = "full" -> {<<>>} [] Which \in {"num", "num2"} -> NumPrefixes
               [] Which = "str" -> StrPrefixes
 
-VARIABLES vtext, vst, vfin, vpos, vleft
-vars == <<vtext, vst, vfin, vpos, vleft>>
+\* RoundNatRatio against the relation of NumTower on a grid of decimal literals around the
+\* rounding, overflow and underflow boundaries (evaluated once, on the state whose text is "0.")
+GridInt == {<<49>>, <<57, 48, 48, 55, 49, 57, 57, 50, 53, 52, 55, 52, 48, 57, 57, 51>>,
+            <<49, 55, 57, 55, 54, 57, 51, 49, 51, 52, 56, 54, 50, 51, 49, 53, 56>>,
+            <<52, 57, 52, 48, 54, 53, 54, 52, 53, 56, 52, 49, 50, 52, 54, 53, 52, 52>>,
+            <<49, 50, 51, 52, 53, 54, 55, 56, 57, 48, 49, 50, 51, 52, 53, 54, 55, 56, 57>>}
+GridFrac == {<<>>, <<53>>}
+GridExp == {<<48>>, <<50, 51>>, <<50, 57, 50>>, <<51, 48, 56>>, <<51, 48, 57>>, <<51, 50, 52>>, <<51, 52, 48>>}
+\* (computed inside the action that reaches "0.", where TLC caches LET values; the invariant reads the flag)
+FloatGridOk ==
+    \A is \in GridInt, fs \in GridFrac, es \in GridExp, ng \in BOOLEAN :
+       NT!CorrectlyRounded(FloatOf(is, fs, ng, es), FloatExact(is, fs, ng, es))
+
+VARIABLES vtext, vst, vfin, vpos, vleft, vchk
+vars == <<vtext, vst, vfin, vpos, vleft, vchk>>
 
 \* the text, its tokens, what follows for parse(text) and - for a one-literal program - its value
 Replay(text, fin) == PrintT("REPLAY " \o ToJson([text |-> text, toks |-> fin.toks,
@@ -55,7 +68,7 @@ Replay(text, fin) == PrintT("REPLAY " \o ToJson([text |-> text, toks |-> fin.tok
 
 Init == \E p \in Prefixes :
            /\ vtext = p /\ vst = FeedAll(St0, p, 1) /\ vfin = Finish(vst)
-           /\ vpos = Len(p) /\ vleft = MaxLen
+           /\ vpos = Len(p) /\ vleft = MaxLen /\ vchk = TRUE
            /\ Replay(vtext, vfin)
 
 \* one more character; vfin is what end-of-input after it would give (one REPLAY line per string)
@@ -66,6 +79,7 @@ Extend == /\ vleft > 0
                     fin == Finish(st2)
                     txt == Append(vtext, c)
                 IN /\ vtext' = txt /\ vst' = st2 /\ vfin' = fin
+                   /\ vchk' = (IF Which = "num2" /\ txt = <<48, 46>> THEN FloatGridOk ELSE TRUE)
                    /\ Replay(txt, fin)
           /\ vpos' = vpos + 1 /\ vleft' = vleft - 1
 
@@ -84,17 +98,5 @@ Progress == [][vpos' = vpos + 1]_vars
 TokensGrow == [][/\ Len(vst'.toks) >= Len(vst.toks)
                  /\ SubSeq(vst'.toks, 1, Len(vst.toks)) = vst.toks]_vars
 
-\* RoundNatRatio against the relation of NumTower on a grid of decimal literals
-GridInt == {<<48>>, <<49>>, <<57>>, <<49, 55>>, <<57, 57, 57>>, <<49, 50, 51, 52, 53, 54, 55, 56, 57, 48, 49, 50, 51, 52, 53, 54, 55, 56, 57>>,
-            <<57, 48, 48, 55, 49, 57, 57, 50, 53, 52, 55, 52, 48, 57, 57, 51>>,
-            <<49, 55, 57, 55, 54, 57, 51, 49, 51, 52, 56, 54, 50, 51, 49, 53, 56>>, <<52, 57, 52, 48, 54, 53, 54, 52, 53, 56, 52, 49, 50, 52, 54, 53, 52, 52>>}
-GridFrac == {<<>>, <<53>>, <<48, 49>>, <<57, 57, 57, 57, 57, 57, 57, 57, 57, 57, 57, 57, 57, 57, 57, 57, 57, 57>>}
-GridExp == {<<48>>, <<49>>, <<50, 50>>, <<50, 51>>, <<51, 48, 55>>, <<51, 48, 56>>, <<51, 48, 57>>, <<50, 57, 50>>,
-            <<51, 50, 51>>, <<51, 50, 52>>, <<51, 52, 48>>}
-FloatsRounded ==
-    vtext = <<48>> /\ vleft = MaxLen /\ Which = "num2" =>
-       \A is \in GridInt, fs \in GridFrac, es \in GridExp, ng \in BOOLEAN :
-          LET f == FloatOf(is, fs, ng, es)
-              p == FloatExact(is, fs, ng, es)
-          IN NT!CorrectlyRounded(f, p)
+FloatsRounded == vchk
 =============================================================================
